@@ -257,8 +257,15 @@ func ruleIdKey(w *World, r *Report) {
 			}
 		})
 		// memory key: in Add itself or in the same-type helper whose first result is the id
+		setters, _ := factMapHelpers(w, a, owner)
 		check := func(fn *ssa.Function, idv func(ssa.Value) bool) {
 			allInstrs(fn, func(in ssa.Instruction) {
+				// `put(id, fact)`: sets the entry for its caller
+				if c := callOf(in); c != nil && c.StaticCallee() != nil {
+					if i, isHelper := setters[c.StaticCallee()]; isHelper && i < len(c.Args) && (idv(c.Args[i]) || idv(resolveSpill(c.Args[i]))) {
+						okMem = true
+					}
+				}
 				if mu, ok := in.(*ssa.MapUpdate); ok && isFieldLoad(mu.Map, owner, stateFactField[owner]) && (idv(mu.Key) || idv(resolveSpill(mu.Key))) {
 					okMem = true
 				}
